@@ -113,5 +113,38 @@ Conf_Liquidity ==
                      IN ra2 = ra -- m.a0 /\ rb2 = rb -- m.a1 /\ LpVol(st', p) = sup -- Arg("liquidity"),
           [at |-> WhereTx, before |-> [p \in LiqPools |-> st.pools[p]], after |-> [p \in LiqPools |-> st'.pools[p]],
            supply |-> [p \in LiqPools |-> <<LpVol(st, p), LpVol(st', p)>>]])
-ConformanceStep == Conf_Code /\ Conf_State /\ Conf_Begin /\ Conf_End /\ Conf_Commit /\ Conf_Trade /\ Conf_Liquidity
+\* ---------------------------------------------------------------- commission paid in a token through its pool with the base coin
+\* A successful delivery whose gas coin is a token (no reserve: the pool route is the only one) with an order-free pool against the base coin:
+\* the sender sells, into that pool, the amount that buys the price of the transaction (BuyTrade: what the pool needs plus the burned part),
+\* the base coins that sale really yields (SellTrade of that amount) go to the reward pool, and the rest of the transaction is what the
+\* base-coin model computes.  Encoded by running the base-coin model on a state in which the conversion has already happened.
+BurnAccount == "x00cedde786b34d733d1dc96559253081572df2c6"
+FeePools == PoolOf(st, Tx.gasCoin, Base)
+FeePool == CHOOSE p \in FeePools : TRUE
+BaseTx == [Tx EXCEPT !.gasCoin = Base]
+BasePriceOfTx == IF Tx.type \in CoinTypes THEN TokenPrice(st, BaseTx) ELSE PriceFor(st, BaseTx)
+CustomGasCovered ==
+   /\ Delivered /\ Tx.intact /\ Tx.mut = "" /\ Code = 0 /\ "st" \in DOMAIN ev' /\ Tx.gasCoin # Base /\ st.priceCoin = Base
+   /\ Tx.gasCoin \in DOMAIN st.coins /\ st.coins[Tx.gasCoin].kind = "token"
+   /\ Cardinality(FeePools) = 1 /\ NoOrdersIn(FeePool) /\ FeePool \in DOMAIN st'.pools
+   /\ Tx.type # "RedeemCheck"
+   /\ (Supported(st, BaseTx) \/ StakingSupported(st, BaseTx) \/ CoinsSupported(st, BaseTx))
+   /\ (Tx.type \in {"CreateToken", "RecreateToken", "CreateCoin", "RecreateCoin"} => Code \notin {203, 204})
+Conf_CustomGas ==
+   Clause("DRIFT", "ModelPredictsDeliveryPaidThroughPool", CustomGasCovered,
+          LET q == st.pools[FeePool]
+              fwd == q.c0 = Tx.gasCoin
+              rG == IF fwd THEN q.r0 ELSE q.r1
+              rB == IF fwd THEN q.r1 ELSE q.r0
+              price == BasePriceOfTx
+              bt == PL!BuyTrade(rG, rB, price)
+              sl == PL!SellTrade(rG, rB, bt.pay)
+              p2 == [q EXCEPT !.r0 = IF fwd THEN rG ++ sl.net ELSE rB -- sl.out, !.r1 = IF fwd THEN rB -- sl.out ELSE rG ++ sl.net]
+              s0 == AddBal(AddBal(SubBal([st EXCEPT !.pools[FeePool] = p2], Tx.sender, Tx.gasCoin, bt.pay), BurnAccount, Tx.gasCoin, sl.burned), Tx.sender, Base, price)
+              r == RunTxC(s0, BaseTx, H, Cfg, NodeLimits)
+          IN /\ bt.ok /\ sl.ok /\ r.code = 0
+             /\ StateDiff([r.st EXCEPT !.rewardPool = (@ -- price) ++ sl.out], st') = {},
+          [at |-> WhereTx, gas |-> Tx.gasCoin, pool |-> st.pools[FeePool], poolAfter |-> st'.pools[FeePool],
+           fee |-> (IF HasTag("tx_commission_amount") THEN Tag("tx_commission_amount") ELSE "")])
+ConformanceStep == Conf_Code /\ Conf_State /\ Conf_Begin /\ Conf_End /\ Conf_Commit /\ Conf_Trade /\ Conf_Liquidity /\ Conf_CustomGas
 =============================================================================
